@@ -11,7 +11,8 @@ RULE = ("histories of 1-4 composition calls on a random parent (<= 9 nodes, some
         "children (<= 7 nodes, optionally containing a flip-flop blackbox): add_subcircuit with arbitrary connection maps (child inputs "
         "fed from any net incl. nodes of earlier instances, child outputs driving 1-2 undriven buffers, unconnected io, str and list "
         "values, strip_io on/off), repeated instantiation, add_blackbox + fill_blackbox (two instances filled in either order, nested "
-        "fill of a child's blackbox), strip_blackboxes with ignore_pins None/str/list (incl. instances a.b / a_b whose pins collide after renaming and cells "
+        "fill of a child's blackbox; blackboxes whose 2-4 pins are declared in another order than the filling circuit creates them, pin "
+        "names from a pool of 34; children with two blackbox instances of different types, both carried instances filled), strip_blackboxes with ignore_pins None/str/list (incl. instances a.b / a_b whose pins collide after renaming and cells "
         "whose pin names are suffixes of one another: D/SD, O/CO, q/nq on input and output side), and a rejection stream (clashing node / registry "
         "names, unknown keys, io mismatch, illegal connections); every step is one observation (state before, arguments, state after, "
         "outcome); non-trivial = an accepted call that attaches at least one net or fills/strips a blackbox; distinct = canonical case hash")
@@ -196,6 +197,60 @@ def scen_strip_suffix(rng):
     return {"parent": p, "ops": [{"op": "strip", "ign": ign}], "kind": "strip-suffix"}
 
 
+PIN_POOL = ["s", "t", "e", "d", "clk", "rst", "en", "sel", "a", "b", "cin", "D", "CK", "SE", "SD", "Q", "x", "y", "z", "in0", "in1", "in2",
+            "p", "q", "r", "A", "B", "S", "i", "j", "k", "din", "we", "addr"]
+
+
+def scen_fill_order(rng):
+    """fill_blackbox where the BlackBox declares its 2-4 input pins in another order than the filling circuit creates them
+    (pin sets carry no order: every pin must be wired to the node of the same NAME, whatever the set iteration orders are)"""
+    p = gen_parent(rng, holes=rng.randint(1, 2))
+    k = rng.choice([2, 3, 3, 4, 4, 4])
+    words = rng.sample(PIN_POOL, 10)
+    c = lib.rand_dag(rng, k, rng.randint(2, 3), max_fanin=3, names=lambda i: words[i] if i < len(words) else f"g{i}")
+    c["name"] = "body"
+    for n in c["nodes"]:
+        if n[1] == "input":
+            n[2] = False
+    ins = [n[0] for n in c["nodes"] if n[1] == "input"]
+    outs = [n[0] for n in c["nodes"] if n[2]]
+    decl_in = list(reversed(ins)) if rng.random() < 0.7 else rng.sample(ins, len(ins))
+    decl_out = list(reversed(outs)) if rng.random() < 0.7 else rng.sample(outs, len(outs))
+    spec = [[o, [sel(rng, "freebuf")], rng.random() < 0.5] for o in outs if rng.random() < 0.8]
+    spec += [[i, [sel(rng, "anyd")], rng.random() < 0.5] for i in ins]
+    if rng.random() < 0.5:
+        rng.shuffle(spec)
+    ops = [{"op": "bb", "bb": ["blk", decl_in, decl_out], "inst": "u", "conns": spec}, {"op": "fill", "inst": "u", "sc": c}]
+    return {"parent": p, "ops": ops, "kind": "fill-order"}
+
+
+def cell_body(rng, ins, outs):
+    nodes = [[i, "input", False, []] for i in ins]
+    for o in outs:
+        t = rng.choice(["and", "or", "xor", "nand"]) if len(ins) > 1 else rng.choice(["buf", "not"])
+        nodes.append([o, t, True, sorted(ins) if len(ins) > 1 else [ins[0]]])
+    return {"name": "cellbody", "nodes": nodes, "bbs": []}
+
+
+def scen_sub_two_bbs(rng):
+    """a child with two blackbox instances of DIFFERENT types: each must be carried over with its own BlackBox, and both
+    carried instances can be filled afterwards"""
+    p = gen_parent(rng, holes=rng.randint(1, 2))
+    c = lib.rand_dag(rng, 1, rng.randint(1, 2), max_fanin=2, names=_names(rng.choice(["a", "k"])))
+    c["name"] = "child"
+    c = lib.add_flop(rng, c, inst="ff0", clk="ck")
+    cin, cout = rng.choice([(["I", "CI"], ["O"]), (["A"], ["Y", "YN"]), (["d", "clk", "e"], ["q"])])
+    c = add_cell(rng, c, "m0", "cell", cin, cout, unconnected=0.0)
+    if rng.random() < 0.5:
+        c["bbs"].reverse()                # which of the two is registered last
+    ops = [{"op": "sub", "sc": c, "name": "u0", "conns": conn_spec(rng, c, 0.9, 0.5), "strip": True}]
+    fills = [{"op": "fill", "inst": "u0_m0", "sc": cell_body(rng, cin, cout)}, {"op": "fill", "inst": "u0_ff0", "sc": flop_body(rng)}]
+    if rng.random() < 0.5:
+        fills.reverse()
+    ops += fills[:rng.choice([1, 2, 2])]
+    return {"parent": p, "ops": ops, "kind": "sub-two-bbs"}
+
+
 def scen_reject(rng):
     """the rejection stream: each history contains at least one call that must raise ValueError"""
     p = gen_parent(rng)
@@ -262,7 +317,8 @@ def generate(rng, tier):
     out = []
     for _ in range(n):
         r = rng.random()
-        out.append(scen_sub(rng) if r < 0.38 else scen_fill(rng) if r < 0.62 else scen_strip(rng) if r < 0.74 else
+        out.append(scen_sub(rng) if r < 0.28 else scen_sub_two_bbs(rng) if r < 0.36 else scen_fill(rng) if r < 0.48 else
+                   scen_fill_order(rng) if r < 0.64 else scen_strip(rng) if r < 0.74 else
                    scen_strip_suffix(rng) if r < 0.84 else scen_reject(rng))
     return out
 
@@ -279,7 +335,7 @@ def mutate_case(rng, case):
     _MUTATE_BUDGET[0] -= 1
     k = case.get("kind", "sub").split(":")[0]
     return {"sub": scen_sub, "fill": scen_fill, "strip": scen_strip, "strip-collide": scen_strip, "strip-suffix": scen_strip_suffix,
-            "reject": scen_reject}.get(k, scen_sub)(rng)
+            "fill-order": scen_fill_order, "sub-two-bbs": scen_sub_two_bbs, "reject": scen_reject}.get(k, scen_sub)(rng)
 
 
 # ---------------------------------------------------------------- implementation driver
@@ -288,8 +344,8 @@ def _resolve(c, spec, dotted_ok=True):
     import networkx as nx
     g = c.graph
     ty = lambda n: g.nodes[n].get("type")
-    conns, used, forbidden = [], set(), set()
-    out_first = sorted(range(len(spec)), key=lambda i: 0 if any(s["sel"] != "any" for s in spec[i][1]) else 1)
+    conns, used, forbidden, taken = [], set(), set(), set()
+    out_first = sorted(range(len(spec)), key=lambda i: 0 if any(s["sel"] not in ("any", "anyd") for s in spec[i][1]) else 1)
     resolved = {}
     for i in out_first:
         key, sels, as_list = spec[i]
@@ -305,11 +361,14 @@ def _resolve(c, spec, dotted_ok=True):
                 cand = sorted(n for n in g if ty(n) in ("and", "or", "xor", "nand", "nor", "xnor"))
             else:
                 cand = sorted(n for n in g if ty(n) != "bb_input" and n not in forbidden and not (ty(n) == "bb_output" and g.out_degree(n) > 0))
+                if s["sel"] == "anyd" and [n for n in cand if n not in taken]:
+                    cand = [n for n in cand if n not in taken]
             if not cand:
                 continue
             n = cand[s["k"] % len(cand)]
             nets.append(n)
-            if s["sel"] != "any":
+            taken.add(n)
+            if s["sel"] not in ("any", "anyd"):
                 used.add(n)
                 forbidden |= {n} | nx.descendants(g, n)
         if nets:
